@@ -141,8 +141,9 @@ Section Discipline.
     | None => false
     end.
 
-  (* every method of the program, as an entry point called without the lock *)
-  Definition chk_prog (fuel : nat) : bool := forallb (fun p => chk_method fuel (snd p)) P.
+  (* every entry point (method callable from any goroutine), called without the lock *)
+  Definition chk_prog (fuel : nat) (entries : list string) : bool :=
+    forallb (fun m => match lookup m P with Some body => chk_method fuel body | None => false end) entries.
 
   (* paths: exec s t d r - the body s can perform the actions t, register the deferred
      actions d (most recent first), and then has returned (r = true) or fallen
@@ -168,10 +169,10 @@ Section Discipline.
   Definition mtrace (m : string) (tr : list act) : Prop :=
     exists body t d r, lookup m P = Some body /\ exec body t d r /\ tr = t ++ d.
 
-  (* a thread program: any sequence of invocations *)
-  Inductive ttrace : list act -> Prop :=
-  | TNil : ttrace []
-  | TCons m tr rest : mtrace m tr -> ttrace rest -> ttrace (tr ++ rest).
+  (* a thread program: any sequence of invocations of entry points *)
+  Inductive ttrace (entries : list string) : list act -> Prop :=
+  | TNil : ttrace entries []
+  | TCons m tr rest : In m entries -> mtrace m tr -> ttrace entries rest -> ttrace entries (tr ++ rest).
 End Discipline.
 
 (* ------------------------------------------------------------------ *)
